@@ -6,7 +6,11 @@ package sim
 import (
 	"bytes"
 	"encoding/base64"
+	"encoding/json"
 	"fmt"
+	"io"
+	"os"
+	"path/filepath"
 	"runtime/debug"
 	"sort"
 	"strings"
@@ -14,7 +18,11 @@ import (
 	"testing/synctest"
 	"time"
 
+	"github.com/spf13/cobra"
+
 	"helm.sh/helm/v4/pkg/action"
+	chartutil "helm.sh/helm/v4/pkg/chart/v2/util"
+	helmcmd "helm.sh/helm/v4/pkg/cmd"
 	"helm.sh/helm/v4/pkg/kube"
 	release "helm.sh/helm/v4/pkg/release/v1"
 	"helm.sh/helm/v4/pkg/storage"
@@ -171,6 +179,7 @@ type Exec struct {
 	EverDep map[int]bool    // revisions that were ever observed as deployed
 	stop    bool
 	cur     *StepObs
+	leaky   bool // an operation ran that legitimately leaves a blocked goroutine behind (pkg/cmd's signal waiter)
 }
 
 func (x *Exec) Violate(v Violation) {
@@ -367,6 +376,40 @@ func (x *Exec) runOp(p *Process, op *OpSpec, res *OpResult) {
 			up.PostRenderer = pr
 		}
 		res.Rel, err = up.Run(name, BuildChart(&x.Plan.Charts[op.Chart]), deepCopyMap(op.Values))
+	case "cli":
+		// the command line layer itself: flag parsing and the wiring of pkg/cmd on top of this process's Configuration
+		x.leaky = true
+		dir, derr := os.MkdirTemp("", "verif-cli-")
+		if derr != nil {
+			err = derr
+			break
+		}
+		defer os.RemoveAll(dir)
+		chartDir := filepath.Join(dir, "demo")
+		if derr := chartutil.SaveDir(BuildChart(&x.Plan.Charts[op.Chart]), dir); derr != nil {
+			err = derr
+			break
+		}
+		valsFile := filepath.Join(dir, "values.json")
+		vb, _ := json.Marshal(op.Values)
+		if op.Values == nil {
+			vb = []byte("{}")
+		}
+		os.WriteFile(valsFile, vb, 0o644)
+		args := make([]string, len(op.CLI))
+		for i, a := range op.CLI {
+			a = strings.ReplaceAll(a, "@CHART@", chartDir)
+			a = strings.ReplaceAll(a, "@VALUES@", valsFile)
+			args[i] = a
+		}
+		var root *cobra.Command
+		root, err = helmcmd.VerifNewRootCmd(cfg, io.Discard, args)
+		if err == nil {
+			root.SetArgs(args)
+			root.SetOut(io.Discard)
+			root.SetErr(io.Discard)
+			err = root.Execute()
+		}
 	case "rollback":
 		rb := action.NewRollback(cfg)
 		rb.Version = op.Revision
@@ -673,6 +716,9 @@ func Execute(t *testing.T, plan *Plan, oracle func(x *Exec, so *StepObs), final 
 			msg := fmt.Sprint(r)
 			if strings.Contains(msg, "deadlock") && (res.Infra != "" || hung) {
 				return // blocked goroutines left behind by a hang we already reported
+			}
+			if strings.Contains(msg, "deadlock") && ex != nil && ex.leaky {
+				return // helm's install/upgrade commands leave a goroutine waiting for SIGTERM behind: not a hang
 			}
 			if res.Infra == "" {
 				res.Infra = "panic in harness: " + msg + "\n" + string(debug.Stack())
